@@ -38,6 +38,13 @@ MISSED_FIRST = {
     "C17-N1": "str.split() on whitespace was not modelled (inconclusive); added",
     "C18-N2": "a non-terminating decoder never came back to the engine; added a per-path watchdog with confirmation on the real package in a subprocess and termination units for receive()",
     "C19-N2": "custom types were only delivered whole; added delivery in two pieces",
+    # ---- third round (P): evaluated blind first; these were missed
+    "C10-P1": "no call ever carried a control; every send/receive operation now also runs with a paged-results control with a symbolic non-empty cookie ('@p' variants)",
+    "C10-P2": "first reported by a clause that demanded more than C10 states (refusing a response whose kind does not match the request is allowed; corrected, see DESIGN 5.3); the real violation needs a search id that is no longer outstanding but still in the search registry - server pre-states with such stale ids were added to the inductive step",
+    "C12-P1": "C12 had no clause tying a successful send to the stream (only C09/C10 decoded what a call appended); added: a successful send contributes exactly its own message",
+    "C13-P1": "no and/or had two members of the same kind, so equal members were not expressible; added (symbolic contents make them equal on some paths) plus a concrete tree with repeated members",
+    "C19-P1": "registration was only followed by deliveries, never preceded by one; added every history of 3 (thorough: 4) registrations / deliveries of two custom types on one session, judged by a ghost registry",
+    "C19-P2": "same: a rejected duplicate was never followed by another registration",
     "C19-M2": "duplicate registration was only tried with the same class; now a different class reusing a custom or built-in id must be rejected",
 }
 
